@@ -471,7 +471,7 @@ func checkJSONNumber(r *Run, prog *Program, a *Anchors, pfx string) {
 		pos := prog.pos(sm.Ret.Pos())
 		if matcher != nil {
 			// transparency: matcher gets Indirect(ValueOf(val))
-			ok := indirect != nil && valueOf != nil && len(matcher.Args) == 2 && matcher.Args[1].Key() == indirect.Res.Key() && indirect.Args[0].Key() == valueOf.Res.Key()
+			ok := indirect != nil && valueOf != nil && matcherValueKey(sm.St, matcher) == indirect.Res.Key() && indirect.Args[0].Key() == valueOf.Res.Key()
 			r.Check(pfx+".value-handed-over", "Indirect(ValueOf(val))", prog.pos(matcher.Instr.Pos()), ok, "the matcher must be given reflect.Indirect(reflect.ValueOf(value)) so that pointers and interfaces are transparent and named types are compared by kind")
 			if i64 != nil && valueOf != nil {
 				cls := "json-int"
@@ -515,4 +515,12 @@ func init() {
 		r.Explain = "For each of the 27 kinds: scalars have a comparator whose asserted type is the coercion's result type and whose accessor is the one of that group (Int/int64, Uint/uint64, Float/float64, float32(Float())/float32, Bool/bool, String/string), non-scalars have none and equality against them returns an error; each coercion is exactly one strconv call with base 0/64 bits (ints), the field's width (floats) or ParseBool, applied to the literal's Raw text unmodified, returning strconv's error unchanged; no conversion between integer and floating types on either side; a failed coercion makes the matcher return (false, error) except the one named ErrSyntax skip for heterogeneous interface slices; json.Number narrows to int64 then float64 before the dispatch; matchers receive Indirect(ValueOf(value)). NOT decided: strconv's own arithmetic; pointer depth > 1 (Indirect is single-level)."
 		r.Assume = append(r.Assume, "strconv.ParseInt/ParseUint/ParseFloat/ParseBool implement Go literal syntax exactly")
 	})
+}
+
+func matcherValueKey(st *pstate, ev *Event) string {
+	_, v := matcherCallOperands(st, ev)
+	if v == nil {
+		return ""
+	}
+	return v.Key()
 }
